@@ -243,11 +243,17 @@ func init() {
 					}
 				}
 				out := vuOut(n, p)
+				fm := 0.0 // largest raw flow seen so far: bounds the residue of the running flow sums
+				for i := 0; i < p && i < n; i++ {
+					fm = math.Max(fm, math.Abs(raw[i]))
+				}
 				for k := range out {
 					i := k + p
-					ratio := Quot(Sum(Window(pos, i, p)), Sum(Window(neg, i, p)), 0)
+					fm = math.Max(fm, math.Abs(raw[i]))
+					negSum := Sum(Window(neg, i, p))
+					ratio := Quot(Sum(Window(pos, i, p)), negSum, 0)
 					val := 100 - 100/(1+ratio.V)
-					out[k] = RV{V: val, Ill: ratio.Ill || bad(val)}
+					out[k] = RV{V: val, Ill: ratio.Ill || bad(val), S: Resid(fm, 100/negSum)}
 				}
 				return One(out)
 			},
